@@ -9,8 +9,10 @@ import (
 	"github.com/zenon-network/go-zenon/chain/account"
 	"github.com/zenon-network/go-zenon/chain/nom"
 	"github.com/zenon-network/go-zenon/chain/store"
+	"github.com/zenon-network/go-zenon/common"
 	"github.com/zenon-network/go-zenon/common/db"
 	"github.com/zenon-network/go-zenon/common/types"
+	"github.com/zenon-network/go-zenon/consensus/api"
 	"github.com/zenon-network/go-zenon/vm/embedded"
 	"github.com/zenon-network/go-zenon/vm/vm_context"
 )
@@ -48,6 +50,15 @@ func (m *c09Momentum) IsSporkActive(s *types.ImplementedSpork) (bool, error) {
 	return false, nil
 }
 
+// pillar reader (consensus statistics): a model; only the epoch ticker is concrete (24 h epochs from a fixed genesis)
+type c09Pillars struct {
+	api.PillarReader
+}
+
+func (p *c09Pillars) EpochTicker() common.Ticker {
+	return common.NewTicker(time.Unix(1600000000, 0), 24*time.Hour)
+}
+
 type c09Env struct {
 	contract types.Address
 	as       store.Account
@@ -62,7 +73,7 @@ func c09NewEnv(contract types.Address) *c09Env {
 	e.mom = &c09Momentum{height: verifNondetU64("frontier height"), ts: verifNondetU64("frontier timestamp")}
 	verifAssume(e.mom.height >= 2 && e.mom.height < 1<<60 && e.mom.ts >= 1600000000 && e.mom.ts < 1<<40, "frontier momentum: height in [2,2^60), time after 2020")
 	e.mom.sporks = [3]bool{verifNondetBool("accelerator spork active"), verifNondetBool("htlc spork active"), verifNondetBool("bridge spork active")}
-	e.ctx = vm_context.NewAccountContext(e.mom, e.as, nil)
+	e.ctx = vm_context.NewAccountContext(e.mom, e.as, &c09Pillars{})
 	return e
 }
 
@@ -89,11 +100,13 @@ type c09Outcome struct {
 }
 
 func (e *c09Env) receive() (o c09Outcome) {
-	defer func() {
-		if r := recover(); r != nil {
-			o.panicked = true
-		}
-	}()
+	if verifParam("debug", 0) == 0 {
+		defer func() {
+			if r := recover(); r != nil {
+				o.panicked = true
+			}
+		}()
+	}
 	o.block, o.methodErr, o.err = NewVM(e.ctx).generateEmbeddedReceive(e.send.Hash)
 	return
 }
@@ -151,4 +164,31 @@ func (e *c09Env) c09CheckWrapper(o c09Outcome, before map[types.ZenonTokenStanda
 			verifAssert(len(o.block.DescendantBlocks) == 0, "a failed call without value sends nothing")
 		}
 	}
+}
+
+// VerifC09HostileCallAnyContract: hostile call data (raw symbolic bytes, one of the word-aligned lengths) with any
+// amount of ZNN/QSR sent to one of the embedded contracts (parameter `contract`), under every spork regime, on an
+// empty contract state: if the network accepted the send, the receive terminates without panic and applies or refunds.
+func VerifC09HostileCallAnyContract() {
+	contracts := []types.Address{types.PlasmaContract, types.StakeContract, types.TokenContract, types.SentinelContract, types.PillarContract,
+		types.SporkContract, types.HtlcContract, types.SwapContract, types.AcceleratorContract, types.LiquidityContract, types.BridgeContract}
+	e := c09NewEnv(contracts[verifParam("contract", 0)])
+	spork := types.Address{}
+	spork[0] = types.UserAddrByte
+	spork[5] = 5
+	types.SporkAddress = &spork
+	tok := []types.ZenonTokenStandard{types.ZnnTokenStandard, types.QsrTokenStandard}[verifNondetLen("token (0 znn, 1 qsr)", 0, 1)]
+	words := verifNondetLen("argument words", 0, verifParam("words", 3))
+	e.c09Send(verifNondetBytes("call data", 4+32*words), tok)
+	bz, bq := c01Amount("contract znn"), c01Amount("contract qsr")
+	lim := new(big.Int).Lsh(big.NewInt(1), 200)
+	verifAssume(bz.Cmp(lim) < 0 && bq.Cmp(lim) < 0 && e.send.Amount.Cmp(lim) < 0, "Inv: balances and amounts far below 2^255")
+	verifAssert(e.as.SetBalance(types.ZnnTokenStandard, bz) == nil && e.as.SetBalance(types.QsrTokenStandard, bq) == nil, "set")
+	if !e.sendAccepted() {
+		verifReach("send refused at send time", true)
+		return
+	}
+	verifReach("send accepted", true)
+	o := e.receive()
+	e.c09CheckWrapper(o, map[types.ZenonTokenStandard]*big.Int{types.ZnnTokenStandard: bz, types.QsrTokenStandard: bq}, 0)
 }
